@@ -28,6 +28,7 @@ package tree
 //@   ensures[C07] result == OK(r, old(position))
 //@   ensures[C07] imp(result, position == END(r, old(position)) && old(position) <= position)
 //@   ensures[C07] imp(!result, position == old(position) && tokenIndex == old(tokenIndex))
+//@   ensures[C07] imp(result, tokenIndex >= old(tokenIndex))
 //@   ensures[C07] imp(AS(r), result)
 //@   ensures[C07] text == TXT(r, old(position), old(text))
 //@   ensures[C07] alog == LOG(r, old(position), old(alog), old(text))
